@@ -16,6 +16,7 @@ from collections import deque
 import numpy as np
 
 from . import rngseam
+from .world import check_request
 
 _installed = False
 
@@ -125,6 +126,7 @@ def install():
         wd = _wd()
         if wd is None:
             return orig_cl(self, level, current_mc_paths, extra_mc_paths, *a, **k)
+        check_request(extra_mc_paths, f"level {int(level)} pass")
         prev = wd.level
         wd.level = int(level)
         wd.control.append(("level.start", int(level), int(current_mc_paths), int(extra_mc_paths), len(wd.samples)))
@@ -157,6 +159,7 @@ def install():
     def extend(self, mc_paths):
         wd = _wd()
         if wd is not None:
+            check_request(np.max(np.asarray(mc_paths)) if np.size(mc_paths) else 0, "statistics.extend")
             wd.control.append(("extend", [int(x) for x in np.asarray(mc_paths).tolist()]))
         return orig_ext(self, mc_paths)
 
@@ -166,6 +169,8 @@ def install():
     orig_pc = levyprocess.SimulationFixedTimes.pre_computation
 
     def pre_computation(self, mc_paths, product):
+        if _wd() is not None:
+            check_request(mc_paths, "pre_computation")
         r = orig_pc(self, mc_paths, product)
         wd = _wd()
         if wd is not None:
